@@ -11,6 +11,7 @@ from __future__ import annotations
 import ast
 import dataclasses
 import enum
+import gc
 import importlib
 import importlib.abc
 import inspect
@@ -263,6 +264,14 @@ def run_job(job: dict) -> dict:
             out[w] = {"observer_error": short_exc(e), "tb": traceback.format_exc()[-800:]}
     out["generator_imports"] = list(GENERATOR_IMPORTS)
     GENERATOR_IMPORTS.clear()
+    # forget the observed package (and its core): a worker observes thousands of packages in one interpreter, and everything a package
+    # imported would otherwise stay alive until the worker ends (several GB per worker in the thorough tiers)
+    tops = {str(job.get("pkg", "")).split(".")[0], str(job.get("core") or "").split(".")[0]} - {"", "harness"}
+    for name in [m for m in sys.modules if m.split(".")[0] in tops]:
+        del sys.modules[name]
+    if tops:
+        importlib.invalidate_caches()
+        gc.collect()
     return out
 
 
